@@ -1,6 +1,6 @@
 /-
   Assembly of C16 / C09, part 8: the stream theorem with the contract the fillers actually keep
-  (`strm_contract`: proviso `ShiftOk r ∧ KindOk r p`), the stream never gets stuck (`pops_some`), and how a stream ends:
+  (`strm_contract`: proviso `ShiftOk r`), the stream never gets stuck (`pops_some`), and how a stream ends:
   a short fill notes the end (`refill_short`), a stream whose end is noted drains its cache and stops (`pops_drain`).
 -/
 import Echse.Lemmas.RrAsm12
@@ -8,12 +8,13 @@ import Echse.Lemmas.RrStrmOk
 namespace Echse.Lemmas.RrAsm
 open Echse.Rrule Echse.Instant Echse.Spec.RrOk Echse.Lemmas.RrStrmOk
 
-/-- the proviso the stream carries from seed to seed: on the rule's SHIFT and on the kind of the seed -/
-def StrmK (r : Rule) (p : Inst) : Prop := ShiftOk r ∧ KindOk r p
+/-- the proviso the stream carries from seed to seed: on the rule's SHIFT only (the kind of the seed does not matter,
+`make_enum` ignores BYHOUR / BYMINUTE / BYSECOND next to a DATE) -/
+def StrmK (r : Rule) (_p : Inst) : Prop := ShiftOk r
 
 theorem strm_contract : Contract StrmK where
   fill := fun r p n l hr hp hk hn h =>
-    ⟨fill_contract r p n l hr hp hk.2 hk.1 hn h, fun x hx => ⟨hk.1, fill_kind_all r p n l hr hp hk.2 h x hx⟩⟩
+    ⟨fill_contract r p n l hr hp hk hn h, fun _ _ => hk⟩
   count := fun _ _ _ hk => hk
 
 /-! ### `fix_rrul_dflts` touches BYMONTH, BYMONTHDAY, BYDAY only -/
@@ -34,8 +35,8 @@ theorem fixDflts_S (r : Rule) (p : Inst) : (fixDflts r p).S = r.S := by
   unfold fixDflts; repeat' split
   all_goals rfl
 
-theorem strmK_start (r : Rule) (ds : Inst) (hk : KindOk r ds) (hs : ShiftOk r) : StrmK (fixDflts r ds) ds :=
-  ⟨hs.congr (fixDflts_shift r ds), hk.congr (fixDflts_H r ds) (fixDflts_M r ds) (fixDflts_S r ds)⟩
+theorem strmK_start (r : Rule) (ds : Inst) (hs : ShiftOk r) : StrmK (fixDflts r ds) ds :=
+  hs.congr (fixDflts_shift r ds)
 
 /-! ### the stream never gets stuck -/
 
